@@ -505,45 +505,4 @@ theorem Sat_homRows (cs : List Con) (d : Val) :
   refine forall_congr' fun c => imp_congr_right fun _ => ?_
   simp [Con.sat, Con.eval]
 
-/-- one half of `is_bounded()`: an empty or bounded set is reported as bounded -/
-theorem isBounded_of_bounded (p : RefPoly) (hp : WF p.n p.cs)
-    (h : sem p.cs = ∅ ∨ ∃ M : Rat, ∀ x ∈ sem p.cs, ∀ i < p.n, |x i| ≤ M) :
-    p.isBounded = true := by
-  unfold RefPoly.isBounded
-  rw [Bool.or_eq_true]
-  by_cases hempty : sem p.cs = ∅
-  · left; exact (isEmptyB_iff p.n p.cs hp).mpr hempty
-  · right
-    obtain ⟨M, hM⟩ := h.resolve_left hempty
-    obtain ⟨x0, hx0⟩ := Set.nonempty_iff_ne_empty.mpr hempty
-    simp only [List.all_eq_true, List.mem_range]
-    intro i hi
-    have hwf1 : WF p.n ((relax p.cs).map fun c => { c with k := 0 }) := by
-      intro c hc
-      simp only [relax, List.map_map, List.mem_map, Function.comp] at hc
-      obtain ⟨d, hd, rfl⟩ := hc
-      exact hp d hd
-    rw [subsetB_iff p.n _ _ hwf1 (WF_eqRows _ _ _ (by rw [unitRow_length]; omega))]
-    intro d hd
-    have hd' := (Sat_homRows p.cs d).mp hd
-    show Sat (eqRows (unitRow i 1) 0) d
-    rw [Sat_eqRows, dot_unitRow]
-    -- x0 + t d stays in the set
-    have hmove : ∀ t : Rat, 0 ≤ t → (fun j => 1 * x0 j + t * d j) ∈ sem p.cs := by
-      intro t ht c hc
-      have he := eval_lin c p.n (hp c hc) 1 t x0 d _ (fun _ _ => rfl)
-      have h1 := hx0 c hc
-      have h2 : 0 ≤ t * dot c.coeffs d := mul_nonneg ht (hd' c hc)
-      unfold Con.sat at h1 ⊢
-      rw [he]
-      split at h1 <;> rename_i hs <;> simp only [hs, if_true, Bool.false_eq_true, if_false] <;> linarith
-    have hup : 0 ≤ -(d i) := ray_argument (M - x0 i) _ fun t ht => by
-      have : 1 * x0 i + t * d i ≤ M := (abs_le.mp (hM _ (hmove t ht) i hi)).2
-      linarith
-    have hlo : 0 ≤ d i := ray_argument (M + x0 i) _ fun t ht => by
-      have : -M ≤ 1 * x0 i + t * d i := (abs_le.mp (hM _ (hmove t ht) i hi)).1
-      linarith
-    have : d i = 0 := le_antisymm (by linarith) hlo
-    rw [this]; simp
-
 end PPLV.Lin
